@@ -30,7 +30,7 @@ ASSUMPTIONS = [
     "exceptions documented by a pass (PreconditionError, InvariantError, PassError wrapping ValueError of the inliner / sort cycle) count as 'input rejected'",
     "a function importing another default opset than its model is rejected by the checker itself and is not generated",
 ]
-BUDGET = {"quick": (16, 600), "thorough": (16, 8000)}
+BUDGET = {"quick": (16, 1000), "thorough": (16, 8000)}
 
 PASSES = [
     "RemoveUnusedNodesPass", "RemoveUnusedFunctionsPass", "RemoveUnusedOpsetsPass", "IdentityEliminationPass",
